@@ -96,14 +96,17 @@ impl ValidatorSync for KeepUniqueValidator {
                     if let Some((matched_line, line_range)) = line_match
                         && !seen.insert(matched_line)
                     {
-                        let violation_line_number = block_with_context
-                            .block
-                            .start_tag_position_range
-                            .start()
-                            .line
-                            + line_number;
-                        let line_character_start = *line_range.start(); // Start position is 1-based.
-                        let line_character_end = *line_range.end(); // End position is 1-based and inclusive.
+                        // Content lines are counted from where the content starts (the end of the
+                        // comment holding the start tag), and its first line starts mid-line.
+                        let content_start = &block_with_context.block.content_position_range.start;
+                        let violation_line_number = content_start.line + line_number;
+                        let column_offset = if line_number == 0 {
+                            content_start.character - 1
+                        } else {
+                            0
+                        };
+                        let line_character_start = *line_range.start() + column_offset; // Start position is 1-based.
+                        let line_character_end = *line_range.end() + column_offset; // End position is 1-based and inclusive.
                         violations
                             .entry(file_path.clone())
                             .or_insert_with(Vec::new)
